@@ -1,219 +1,13 @@
 import NmVerif.Index.Slice
 import Mathlib.Tactic.SplitIfs
 /-
-  Helper lemmas for C05 (slicing): exactness of the binary32 length computation below 2^24, the decidable domain `Dom`
-  on which the implementation's case analysis agrees with Python, and the per-axis agreement lemmas.
+  Helper lemmas for C05 (slicing), per axis: the implementation's normalisation `slice_indices` is Python's
+  `slice.indices` for every extent and every start/stop/step; length and element map follow.
   Property statements live in NmVerif/Props/C05.lean.
 -/
 namespace NmVerif.Slice
 
-/-! ### binary32: `ceil(float(s)/step)` is exact for `s < 2^24` -/
-
-
-theorem findT_spec (x k : Nat) (hx : 0 < x) (hk : 0 < k) (hk2 : k < 16777216) :
-    ∀ fuel t, 47 ≤ t + fuel → 8388608 ≤ x * 2 ^ (findT x k fuel t) / k := by
-  intro fuel
-  induction fuel with
-  | zero =>
-    intro t ht
-    simp only [findT]
-    have h47 : 2 ^ 47 ≤ 2 ^ t := Nat.pow_le_pow_right (by decide) (by omega)
-    have h1 : 2 ^ t ≤ x * 2 ^ t := Nat.le_mul_of_pos_left _ hx
-    rw [Nat.le_div_iff_mul_le hk]
-    have : 8388608 * k ≤ 8388608 * 16777216 := Nat.mul_le_mul_left _ (by omega)
-    have e : (2:Nat) ^ 47 = 8388608 * 16777216 := by decide
-    omega
-  | succ f ih =>
-    intro t ht
-    simp only [findT]
-    split
-    · assumption
-    · exact ih (t + 1) (by omega)
-
-theorem div_eq_of_bounds (a b q : Nat) (hb : 0 < b) (h1 : q * b ≤ a) (h2 : a < (q + 1) * b) : a / b = q := by
-  apply Nat.div_eq_of_lt_le
-  · simpa [Nat.mul_comm] using h1
-  · simpa [Nat.mul_comm] using h2
-
-theorem rhe_ceil (x k P : Nat) (hk : 0 < k) (hP : 0 < P) (hx : x < 16777216)
-    (hN : 8388608 ≤ x * P / k) :
-    (rhe (x * P / k) (x * P % k) k + P - 1) / P = (x + k - 1) / k := by
-  have hxk := Nat.div_add_mod x k
-  generalize hc : x / k = c at *
-  generalize hr0 : x % k = r0 at *
-  have hr0k : r0 < k := by rw [← hr0]; exact Nat.mod_lt _ hk
-  have hM : x * P = k * (c * P) + r0 * P := by
-    rw [← hxk, Nat.add_mul, Nat.mul_assoc]
-  have hm : x * P / k = c * P + r0 * P / k := by
-    rw [hM, Nat.mul_add_div hk]
-  have hr : x * P % k = r0 * P % k := by
-    rw [hM, Nat.mul_add_mod]
-  rw [hm] at hN
-  rw [hm, hr]
-  have hw := Nat.div_add_mod (r0 * P) k
-  generalize hu : r0 * P / k = u at *
-  generalize hv : r0 * P % k = v at *
-  have hvk : v < k := by rw [← hv]; exact Nat.mod_lt _ hk
-  by_cases h0 : r0 = 0
-  · subst h0
-    simp only [Nat.zero_mul] at hw
-    have hu0 : u = 0 := by
-      rcases Nat.eq_zero_or_pos u with h | h
-      · exact h
-      · have : k * 1 ≤ k * u := Nat.mul_le_mul_left _ h
-        omega
-    have hv0 : v = 0 := by subst hu0; simpa using hw
-    subst hu0; subst hv0
-    have : rhe (c * P + 0) 0 k = c * P := by simp [rhe]; omega
-    rw [this]
-    have e1 : (c * P + P - 1) / P = c := div_eq_of_bounds _ _ _ hP (by omega) (by rw [Nat.add_mul]; omega)
-    have e2 : (x + k - 1) / k = c := by
-      apply div_eq_of_bounds _ _ _ hk
-      · rw [Nat.mul_comm]; omega
-      · rw [Nat.add_mul, Nat.mul_comm c k]; omega
-    rw [e1, e2]
-  · have hr0p : 1 ≤ r0 := by omega
-    -- u < P
-    have huP : u < P := by
-      have : r0 * P < k * P := Nat.mul_lt_mul_of_pos_right hr0k hP
-      rcases Nat.lt_or_ge u P with h | h
-      · exact h
-      · have : k * P ≤ k * u := Nat.mul_le_mul_left _ h
-        omega
-    have e2 : (x + k - 1) / k = c + 1 := by
-      apply div_eq_of_bounds _ _ _ hk
-      · rw [Nat.add_mul, Nat.mul_comm c k]; omega
-      · rw [Nat.add_mul, Nat.add_mul, Nat.mul_comm c k]; omega
-    rw [e2]
-    have hle : rhe (c * P + u) v k ≤ c * P + u + 1 := by unfold rhe; split <;> omega
-    have hge : c * P + 1 ≤ rhe (c * P + u) v k := by
-      by_cases hu0 : u = 0
-      · subst hu0
-        -- v = r0 * P, c*P ≥ 2^23, k < 2P
-        have hvw : v = r0 * P := by simpa using hw
-        have hck : c * k ≤ x := by rw [Nat.mul_comm]; omega
-        have h1 : (c * P) * k = (c * k) * P := Nat.mul_right_comm c P k
-        have h2 : (c * k) * P ≤ x * P := Nat.mul_le_mul_right _ hck
-        have h3 : x * P < 16777216 * P := Nat.mul_lt_mul_of_pos_right hx hP
-        have h4 : 8388608 * k ≤ (c * P) * k := Nat.mul_le_mul_right _ (by simpa using hN)
-        have h5 : P ≤ r0 * P := Nat.le_mul_of_pos_left _ hr0p
-        have : 2 * v > k := by omega
-        unfold rhe
-        rw [if_pos (Or.inl this)]
-        omega
-      · have : 1 ≤ u := by omega
-        unfold rhe; split <;> omega
-    apply div_eq_of_bounds _ _ _ hP
-    · rw [Nat.add_mul]; omega
-    · rw [Nat.add_mul, Nat.add_mul]; omega
-
-theorem f32DivCeil_exact (x k : Nat) (hx : x < 16777216) (hk : 0 < k) (hk2 : k < 16777216) :
-    f32DivCeil x k = (x + k - 1) / k := by
-  unfold f32DivCeil
-  by_cases h0 : x = 0
-  · subst h0
-    simp
-    exact (Nat.div_eq_of_lt (by omega)).symm
-  · rw [if_neg h0]
-    have : x / k < 16777216 := Nat.lt_of_le_of_lt (Nat.div_le_self _ _) hx
-    rw [if_pos this]
-    simp only [f32DivSmall]
-    exact rhe_ceil x k _ hk (Nat.pow_pos (by decide)) hx (findT_spec x k (by omega) hk hk2 64 0 (by omega))
-
-
-theorem ceilDiv_le_self (x k : Nat) (hk : 0 < k) : (x + k - 1) / k ≤ x := by
-  rcases Nat.eq_zero_or_pos x with h | h
-  · subst h
-    have : (0 + k - 1) / k = 0 := Nat.div_eq_of_lt (by omega)
-    omega
-  · apply Nat.div_le_of_le_mul
-    obtain ⟨y, rfl⟩ : ∃ y, x = y + 1 := ⟨x - 1, by omega⟩
-    obtain ⟨z, rfl⟩ : ∃ z, k = z + 1 := ⟨k - 1, by omega⟩
-    simp only [Nat.add_mul, Nat.mul_add, Nat.mul_one, Nat.one_mul]
-    omega
-
-/-- the length computation is the exact ceiling division for ranges below 2^24 -/
-theorem lengthOf_exact (s k : Int) (hs : 0 ≤ s) (hs2 : s < 16777216) (hk : 0 < k) (hk2 : k < 16777216) :
-    lengthOf s k = some (if s = 0 then 0 else (s - 1) / k + 1) := by
-  obtain ⟨x, rfl⟩ := Int.eq_ofNat_of_zero_le hs
-  obtain ⟨y, rfl⟩ := Int.eq_ofNat_of_zero_le (Int.le_of_lt hk)
-  have hx : x < 16777216 := by omega
-  have hy : 0 < y := by omega
-  have hy2 : y < 16777216 := by omega
-  unfold lengthOf
-  rw [if_neg (by omega), if_pos hs]
-  simp only [Int.toNat_natCast]
-  have hf : f32OfNat x = x := by unfold f32OfNat; rw [if_pos hx]
-  rw [hf, f32DivCeil_exact x y hx hy hy2]
-  have hle := ceilDiv_le_self x y hy
-  rw [if_pos (by omega)]
-  congr 1
-  by_cases h0 : x = 0
-  · subst h0
-    have : (0 + y - 1) / y = 0 := Nat.div_eq_of_lt (by omega)
-    rw [this]; simp
-  · rw [if_neg (by omega)]
-    have : x + y - 1 = (x - 1) + y := by omega
-    rw [this, Nat.add_div_right _ hy]
-    have h1 : ((x : Int) - 1) = ((x - 1 : Nat) : Int) := by omega
-    rw [h1, ← Int.natCast_ediv]
-    omega
-
-
-
-
-
-
-/-! ### Dom — the region on which the implementation agrees with Python (per range entry) -/
-
-def boundOk : Option Int → Bool
-  | none => true
-  | some v => decide (-2147483648 ≤ v) && decide (v < 2147483648)
-
-def stepOk : Option Int → Bool
-  | none => true
-  | some k => decide (k ≠ 0) && decide (-16777216 < k) && decide (k < 16777216)
-
-def isFwd : Option Int → Bool
-  | none => true
-  | some k => decide (0 < k)
-
-def isZero (n : Nat) (v : Int) : Bool := decide (v = 0) || decide (v = -(n : Int))
-
-/-- ranges whose Python result is empty and for which the implementation computes a zero range too -/
-def emptyForm (n : Nat) (a b c : Option Int) : Bool :=
-  match a, b with
-  | some a, some b => (decide (a = b) && decide (b ≤ n)) || (isZero n a && isZero n b) || (decide (a = n) && decide (b ≥ n))
-  | none, some b => isZero n b && isFwd c
-  | some a, none => decide (a = n) && isFwd c
-  | none, none => false
-
-/-- step > 0 or omitted, non-empty result: start omitted or in `[-n, n)`, stop omitted / `≥ n` / in range, except
-    negative start with omitted or positive in-range stop -/
-def fwdForm (n : Nat) (a b : Option Int) : Bool :=
-  match a, b with
-  | none, none => true
-  | none, some b => decide (b ≥ n) || decide (0 < b) || (decide (-(n : Int) < b) && decide (b < 0))
-  | some a, none => decide (0 ≤ a) && decide (a < n)
-  | some a, some b =>
-    if 0 ≤ a ∧ a < n then
-      decide (b ≥ n) || (decide (a < b) && decide (b < n)) || (decide (-(n : Int) < b) && decide (b < 0) && decide (a < b + n))
-    else if -(n : Int) ≤ a ∧ a < 0 then
-      decide (b ≥ n) || (decide (-(n : Int) < b) && decide (b < 0) && decide (a < b))
-    else false
-
-/-- step < 0: start omitted or in `[0, n)` with omitted stop; or `0 < start < n` with stop `0` -/
-def bwdForm (n : Nat) (a b : Option Int) : Bool :=
-  match a, b with
-  | none, none => true
-  | some a, none => decide (0 ≤ a) && decide (a < n)
-  | some a, some b => decide (b = 0) && decide (0 < a) && decide (a < n)
-  | none, some _ => false
-
-/-- `Dom` for one range entry on an axis of extent `n` -/
-def domRange (n : Nat) (a b c : Option Int) : Bool :=
-  decide (0 < n) && decide (n < 16777216) && stepOk c && boundOk a && boundOk b &&
-  (emptyForm n a b c || (if isFwd c then fwdForm n a b else bwdForm n a b))
+theorem u64_small (x : Int) (h1 : 0 ≤ x) (h2 : x < 18446744073709551616) : u64 x = x := by unfold u64; omega
 
 /-! ### Python side in normal form -/
 
@@ -231,142 +25,7 @@ def pyRange (st sp k : Int) : Int :=
 theorem pyLen_eq (st sp k : Int) :
     pyLen st sp k = if pyRange st sp k = 0 then 0 else (pyRange st sp k - 1) / absI k + 1 := by
   unfold pyLen pyRange absI
-  split_ifs <;> first | rfl | omega | (congr 2; omega)
-
-macro "dom_unpack" h:ident : tactic => `(tactic| (
-  simp only [emptyForm, fwdForm, bwdForm, isFwd, isZero, stepOk, boundOk, Bool.and_eq_true, Bool.or_eq_true,
-    decide_eq_true_eq, Bool.false_eq_true, or_false, false_or, ite_true, if_true, Bool.and_true, Bool.true_and, and_true, true_and] at $h:ident))
-macro "dom_bools" h:ident : tactic => `(tactic| (
-  try simp only [Bool.and_eq_true, Bool.or_eq_true, decide_eq_true_eq, Bool.false_eq_true, or_false, false_or, and_false, false_and] at $h:ident))
-
-
-theorem i32_small (x : Int) (h1 : -2147483648 ≤ x) (h2 : x < 2147483648) : i32 x = x := by unfold i32; omega
-theorem u64_small (x : Int) (h1 : 0 ≤ x) (h2 : x < 18446744073709551616) : u64 x = x := by unfold u64; omega
-
-
-macro "dom_fin" : tactic => `(tactic| (
-  (try simp (disch := omega) only [if_pos, if_neg]) <;>
-  (try (unfold i32)) <;> (try (unfold u64)) <;> (try split_ifs) <;> omega))
-
-macro "or_split" h:ident : tactic => `(tactic| (refine Or.elim $h ?_ ?_ <;> clear $h <;> intro $h:ident))
-macro "dom_split" h:ident : tactic => `(tactic| (
-  (try split_ifs at $h:ident) <;> dom_bools $h <;> (repeat' (or_split $h))))
-
-/-- the non-empty forms of Dom -/
-def walkForm (n : Nat) (a b c : Option Int) : Bool := if isFwd c then fwdForm n a b else bwdForm n a b
-def baseOk (n : Nat) (a b c : Option Int) : Bool :=
-  decide (0 < n) && decide (n < 16777216) && stepOk c && boundOk a && boundOk b
-
-theorem domRange_iff (n : Nat) (a b c : Option Int) :
-    domRange n a b c = true ↔ baseOk n a b c = true ∧ (emptyForm n a b c = true ∨ walkForm n a b c = true) := by
-  simp [domRange, baseOk, walkForm]
-
-macro "dom_unpack2" h:ident : tactic => `(tactic| (
-  simp only [baseOk, walkForm, emptyForm, fwdForm, bwdForm, isFwd, isZero, stepOk, boundOk, Bool.and_eq_true, Bool.or_eq_true,
-    decide_eq_true_eq, Bool.false_eq_true, or_false, false_or, ite_true, if_true, Bool.and_true, Bool.true_and, and_true, true_and] at $h:ident))
-
-theorem computeIndex_walk_nn (n : Nat) (c : Option Int) (hbase : baseOk n none none c = true)
-    (h : walkForm n none none c = true) (j : Int) :
-    computeIndex n none none c j = u64 (pyStart n none c + j * stepVal c) := by
-  rcases c with _ | c <;>
-  dom_unpack2 hbase <;> dom_unpack2 h <;>
-  have hi : i32 (n : Int) = n := i32_small _ (by omega) (by omega) <;>
-  have hi' : i32 (-(n : Int)) = -n := i32_small _ (by omega) (by omega) <;>
-  simp only [computeIndex, stopForIndex, pyStart, pyAdjust, stepVal, hi, hi'] <;>
-  dom_split h <;> dom_fin
-
-theorem computeIndex_walk_ns (n : Nat) (b : Int) (c : Option Int) (hbase : baseOk n none (some b) c = true)
-    (h : walkForm n none (some b) c = true) (j : Int) :
-    computeIndex n none (some b) c j = u64 (pyStart n none c + j * stepVal c) := by
-  rcases c with _ | c <;>
-  dom_unpack2 hbase <;> dom_unpack2 h <;>
-  have hi : i32 (n : Int) = n := i32_small _ (by omega) (by omega) <;>
-  have hi' : i32 (-(n : Int)) = -n := i32_small _ (by omega) (by omega) <;>
-  simp only [computeIndex, stopForIndex, pyStart, pyAdjust, stepVal, hi, hi'] <;>
-  dom_split h <;> dom_fin
-
-theorem computeIndex_walk_sn (n : Nat) (a : Int) (c : Option Int) (hbase : baseOk n (some a) none c = true)
-    (h : walkForm n (some a) none c = true) (j : Int) :
-    computeIndex n (some a) none c j = u64 (pyStart n (some a) c + j * stepVal c) := by
-  rcases c with _ | c <;>
-  dom_unpack2 hbase <;> dom_unpack2 h <;>
-  have hi : i32 (n : Int) = n := i32_small _ (by omega) (by omega) <;>
-  have hi' : i32 (-(n : Int)) = -n := i32_small _ (by omega) (by omega) <;>
-  simp only [computeIndex, stopForIndex, pyStart, pyAdjust, stepVal, hi, hi'] <;>
-  dom_split h <;> dom_fin
-
-theorem computeIndex_walk_ss (n : Nat) (a b : Int) (c : Option Int) (hbase : baseOk n (some a) (some b) c = true)
-    (h : walkForm n (some a) (some b) c = true) (j : Int) :
-    computeIndex n (some a) (some b) c j = u64 (pyStart n (some a) c + j * stepVal c) := by
-  rcases c with _ | c <;>
-  dom_unpack2 hbase <;> dom_unpack2 h <;>
-  have hi : i32 (n : Int) = n := i32_small _ (by omega) (by omega) <;>
-  have hi' : i32 (-(n : Int)) = -n := i32_small _ (by omega) (by omega) <;>
-  simp only [computeIndex, stopForIndex, pyStart, pyAdjust, stepVal, hi, hi'] <;>
-  dom_split h <;> dom_fin
-
-
-/-! ### computeRange on Dom -/
-
-theorem computeRange_dom_nn (n : Nat) (c : Option Int) (h : domRange n none none c = true) :
-    computeRange n none none c = pyRange (pyStart n none c) (pyStop n none c) (stepVal c) := by
-  unfold domRange at h
-  rcases c with _ | c <;>
-  dom_unpack h <;>
-  obtain ⟨hbase, h⟩ := h <;>
-  have hi : i32 (n : Int) = n := i32_small _ (by omega) (by omega) <;>
-  simp only [computeRange, stopForRange, pyRange, pyStart, pyStop, pyAdjust, stepVal, absI, hi] <;>
-  dom_split h <;> dom_fin
-
-theorem computeRange_dom_ns (n : Nat) (b : Int) (c : Option Int) (h : domRange n none (some b) c = true) :
-    computeRange n none (some b) c = pyRange (pyStart n none c) (pyStop n (some b) c) (stepVal c) := by
-  unfold domRange at h
-  rcases c with _ | c <;>
-  dom_unpack h <;>
-  obtain ⟨hbase, h⟩ := h <;>
-  have hi : i32 (n : Int) = n := i32_small _ (by omega) (by omega) <;>
-  simp only [computeRange, stopForRange, pyRange, pyStart, pyStop, pyAdjust, stepVal, absI, hi] <;>
-  dom_split h <;> dom_fin
-
-theorem computeRange_dom_sn (n : Nat) (a : Int) (c : Option Int) (h : domRange n (some a) none c = true) :
-    computeRange n (some a) none c = pyRange (pyStart n (some a) c) (pyStop n none c) (stepVal c) := by
-  unfold domRange at h
-  rcases c with _ | c <;>
-  dom_unpack h <;>
-  obtain ⟨hbase, h⟩ := h <;>
-  have hi : i32 (n : Int) = n := i32_small _ (by omega) (by omega) <;>
-  simp only [computeRange, stopForRange, pyRange, pyStart, pyStop, pyAdjust, stepVal, absI, hi] <;>
-  dom_split h <;> dom_fin
-
-theorem computeRange_dom_ss (n : Nat) (a b : Int) (c : Option Int) (h : domRange n (some a) (some b) c = true) :
-    computeRange n (some a) (some b) c = pyRange (pyStart n (some a) c) (pyStop n (some b) c) (stepVal c) := by
-  unfold domRange at h
-  rcases c with _ | c <;>
-  dom_unpack h <;>
-  obtain ⟨hbase, h⟩ := h <;>
-  have hi : i32 (n : Int) = n := i32_small _ (by omega) (by omega) <;>
-  simp only [computeRange, stopForRange, pyRange, pyStart, pyStop, pyAdjust, stepVal, absI, hi] <;>
-  dom_split h <;> dom_fin
-
-theorem computeRange_dom (n : Nat) (a b c : Option Int) (h : domRange n a b c = true) :
-    computeRange n a b c = pyRange (pyStart n a c) (pyStop n b c) (stepVal c) := by
-  rcases a with _ | a <;> rcases b with _ | b
-  · exact computeRange_dom_nn n c h
-  · exact computeRange_dom_ns n b c h
-  · exact computeRange_dom_sn n a c h
-  · exact computeRange_dom_ss n a b c h
-
-theorem computeIndex_walk (n : Nat) (a b c : Option Int) (hbase : baseOk n a b c = true)
-    (h : walkForm n a b c = true) (j : Int) :
-    computeIndex n a b c j = u64 (pyStart n a c + j * stepVal c) := by
-  rcases a with _ | a <;> rcases b with _ | b
-  · exact computeIndex_walk_nn n c hbase h j
-  · exact computeIndex_walk_ns n b c hbase h j
-  · exact computeIndex_walk_sn n a c hbase h j
-  · exact computeIndex_walk_ss n a b c hbase h j
-
-
-/-! ### Python side: bounds -/
+  split_ifs <;> first | rfl | omega
 
 theorem pyAxis_eq (n : Nat) (a b c : Option Int) (hk : stepVal c ≠ 0) :
     pyAxis n a b c = some ((pyLen (pyStart n a c) (pyStop n b c) (stepVal c)).toNat, pyStart n a c, stepVal c) := by
@@ -443,38 +102,74 @@ theorem pyAxis_inBounds (n : Nat) (a b c : Option Int) (hk : stepVal c ≠ 0) (j
     rw [if_neg hneg] at hpos hmul
     split_ifs at hpos hmul <;> omega
 
+/-! ### the implementation's normalisation is Python's -/
+
+/-- `slice_indices` (clamp formulation) = `PySlice_AdjustIndices`, for every extent and every start/stop/step -/
+theorem sliceIndices_eq_python (n : Nat) (a b c : Option Int) :
+    sliceIndices n a b c = (pyStart n a c, pyStop n b c, stepVal c) := by
+  unfold sliceIndices pyStart pyStop pyAdjust
+  rcases a with _ | a <;> rcases b with _ | b <;> rcases c with _ | c <;>
+  simp only [stepVal] <;>
+  (apply Prod.ext
+   · simp only; split_ifs <;> omega
+   · apply Prod.ext
+     · simp only; split_ifs <;> omega
+     · rfl)
+
+theorem computeRange_eq_python (n : Nat) (a b c : Option Int) :
+    computeRange n a b c = pyRange (pyStart n a c) (pyStop n b c) (stepVal c) := by
+  unfold computeRange
+  rw [sliceIndices_eq_python]
+  simp only [pyRange]
+  split_ifs <;> omega
+
 theorem computeStep_eq (c : Option Int) : computeStep c = absI (stepVal c) := by
   rcases c with _ | c <;> (first | rfl | simp [computeStep, stepVal, absI])
 
-theorem emptyForm_range (n : Nat) (a b c : Option Int) (hbase : baseOk n a b c = true) (h : emptyForm n a b c = true) :
-    pyRange (pyStart n a c) (pyStop n b c) (stepVal c) = 0 := by
-  rcases a with _ | a <;> rcases b with _ | b <;> rcases c with _ | c <;>
-  dom_unpack2 hbase <;> dom_unpack2 h <;>
-  simp only [pyRange, pyStart, pyStop, pyAdjust, stepVal] <;>
-  dom_split h <;> dom_fin
+/-- integer ceiling `(r + k - 1) / k` in the form CPython computes the length -/
+theorem ceil_eq (r k : Int) (hr : 0 ≤ r) (hk : 0 < k) :
+    (r + k - 1) / k = if r = 0 then 0 else (r - 1) / k + 1 := by
+  split_ifs with h0
+  · subst h0
+    exact Int.ediv_eq_zero_of_lt (by omega) (by omega)
+  · have : r + k - 1 = (r - 1) + k := by omega
+    have h1 : (r - 1 + k) = (r - 1) + 1 * k := by omega
+    rw [this, h1, Int.add_mul_ediv_right _ _ (by omega)]
 
-/-- per-axis agreement on Dom: same length, and every element `j` below it is Python's `start' + j*step`, inside the axis -/
-theorem range_dom (n : Nat) (a b c : Option Int) (h : domRange n a b c = true) :
+theorem stepVal_abs_pos (c : Option Int) (hk : stepVal c ≠ 0) : 0 < absI (stepVal c) := by
+  unfold absI; split_ifs <;> omega
+
+/-- per-axis agreement, for every extent below 2^64 and every start/stop/step with step ≠ 0: same length, and every
+    element `j` below it is Python's `start' + j*step` -/
+theorem range_all (n : Nat) (a b c : Option Int) (hn : n < 18446744073709551616) (hk : stepVal c ≠ 0) :
     sliceLen n a b c = some (pyLen (pyStart n a c) (pyStop n b c) (stepVal c)) ∧
     ∀ j : Nat, j < (pyLen (pyStart n a c) (pyStop n b c) (stepVal c)).toNat →
       computeIndex n a b c j = pyStart n a c + j * stepVal c := by
-  have hR := computeRange_dom n a b c h
-  obtain ⟨hbase, hform⟩ := (domRange_iff n a b c).1 h
-  have hk : stepVal c ≠ 0 ∧ absI (stepVal c) < 16777216 ∧ n < 16777216 := by
-    rcases c with _ | c <;> dom_unpack2 hbase <;> simp only [stepVal, absI] <;> split_ifs <;> omega
-  have hak : 0 < absI (stepVal c) := by unfold absI; split_ifs <;> omega
-  have hrb := pyRange_bounds n a b c hk.1
+  have hak := stepVal_abs_pos c hk
+  have hrb := pyRange_bounds n a b c hk
   constructor
-  · unfold sliceLen
-    rw [hR, computeStep_eq, lengthOf_exact _ _ hrb.1 (by omega) hak hk.2.1, pyLen_eq]
+  · unfold sliceLen lengthOf
+    rw [computeRange_eq_python, computeStep_eq, if_neg (by omega), ceil_eq _ _ hrb.1 hak, pyLen_eq]
   · intro j hj
-    have hin := pyAxis_inBounds n a b c hk.1 j hj
-    rcases hform with he | hw
-    · have := emptyForm_range n a b c hbase he
-      have := (mul_le_of_lt_pyLen _ _ _ hk.1 j hj).1
-      omega
-    · rw [computeIndex_walk n a b c hbase hw j]
-      exact u64_small _ hin.1 (by omega)
+    have hin := pyAxis_inBounds n a b c hk j hj
+    unfold computeIndex
+    rw [sliceIndices_eq_python]
+    simp only
+    exact u64_small _ hin.1 (by omega)
 
+/-- the goal of the per-entry step, for a range entry -/
+theorem range_entry_all (n : Nat) (a b c : Option Int) (hn : n < 18446744073709551616) (hk : stepVal c ≠ 0) :
+    ∃ l f k, pyAxis n a b c = some (l, f, k) ∧ sliceLen n a b c = some (l : Int) ∧
+      ∀ j : Nat, j < l → computeIndex n a b c j = f + j * k ∧ 0 ≤ f + j * k ∧ f + j * k < n := by
+  obtain ⟨hl, hi⟩ := range_all n a b c hn hk
+  refine ⟨_, _, _, pyAxis_eq n a b c hk, ?_, ?_⟩
+  · rw [hl, Int.toNat_of_nonneg (pyLen_nonneg _ _ _ hk)]
+  · intro j hj
+    exact ⟨hi j hj, pyAxis_inBounds n a b c hk j hj⟩
+
+theorem intIndex_dom (n : Nat) (k : Int) (h1 : -(n : Int) ≤ k) (h2 : k < n) (h3 : n < 4611686018427387904) :
+    intIndex n k = (if k < 0 then k + n else k) ∧ 0 ≤ intIndex n k ∧ intIndex n k < n := by
+  unfold intIndex u64 absI
+  split_ifs <;> omega
 
 end NmVerif.Slice
